@@ -76,17 +76,88 @@ def unsigned_leafs_ok(t, qleaf):
         return True
     if t[0] == 'cast' and t[1] == 'IntToInt':
         return unsigned_leafs_ok(t[4], qleaf)
+    if t[0] == 'call' and isinstance(t[1], str) and t[1] in ('<usize as core::clone::Clone>::clone', '<u64 as core::clone::Clone>::clone') and t[2][0][0] == 'ref':
+        return unsigned_leafs_ok(t[2][0][1], qleaf)     # derived Clone copies the field
     return qleaf(t)
 
 
-def size_leaf(t):
+FORMATTER = 'cadence::builder::MetricFormatter'
+
+
+def size_fields(ctx, rep=None):
+    """usize fields of the formatter (or of a private struct nested in it) whose every initialisation and update, crate
+    wide, is itself a sum/product of in-memory lengths, constants and such fields: by induction they hold sums of
+    lengths.  Greatest fixpoint; found by what the code does with them, not by their names."""
+    if getattr(ctx, '_size_fields', None) is not None:
+        return ctx._size_fields
+    cad = ctx.cad
+    owners = {}
+    todo = [FORMATTER]
+    seen = set()
+    while todo:
+        a = todo.pop()
+        if a in seen:
+            continue
+        seen.add(a)
+        for f in adt_fields(cad, a) or []:
+            if f['ty'] == 'usize':
+                owners.setdefault(f['name'], set()).add(a)
+            elif type_head(f['ty']) in cad.adts and type_head(f['ty']).startswith('cadence::builder::') and cad.adts[type_head(f['ty'])]['kind'] == 'Struct':
+                todo.append(type_head(f['ty']))
+    cand = set(n for n, o in owners.items() if len(o) == 1)
+    writes = {n: [] for n in cand}
+    for b in cad.all_bodies:
+        T = None
+        for bi, blk in enumerate(b.blocks):
+            for si, s in enumerate(blk['stmts']):
+                if s['k'] != 'assign':
+                    continue
+                rv = s['rv']
+                hit = None
+                if rv['k'] == 'agg' and rv.get('ak') == 'adt' and rv.get('path') in seen:
+                    hit = 'agg'
+                else:
+                    pr = s['place']['p']
+                    if pr and pr[-1][0] == 'field' and pr[-1][2] in cand and pr[-1][3] == 'usize':
+                        hit = pr[-1][2]
+                if hit is None:
+                    continue
+                T = T or Terms(b)
+                v = norm(T.rvalue_term(rv, bi, si))
+                if hit == 'agg':
+                    if v[0] == 'adt':
+                        for n, fv in v[3]:
+                            if n in cand and n in [f['name'] for f in adt_fields(cad, rv['path'])]:
+                                writes[n].append(norm(fv))
+                else:
+                    writes[hit].append(v)
+    sz = set(n for n in cand if writes[n])
+    changed = True
+    while changed:
+        changed = False
+        for n in sorted(sz):
+            def leaf(t, sz=sz):
+                return _size_leaf(t, sz)
+            if not all(unsigned_leafs_ok(v, leaf) for v in writes[n]):
+                sz.discard(n)
+                changed = True
+    ctx._size_fields = sz
+    return sz
+
+
+def size_leaf_for(ctx):
+    sz = size_fields(ctx)
+    return lambda t: _size_leaf(t, sz)
+
+
+def _size_leaf(t, sz):
     """in-memory lengths, size-hint fields (usize sums of lengths), value counts"""
     if t[0] == 'call' and isinstance(t[1], str) and (t[1].endswith('::len') or t[1].endswith('MetricValue::count') or t[1].endswith('_size_hint') or t[1].endswith('::size_hint') or t[1].endswith('::capacity')):
         return True
     if t[0] == 'field' or t[0] == 'load':
         x = t[1] if t[0] == 'load' else t
         n = x[2] if x[0] == 'field' else None
-        return isinstance(n, str) and (n.endswith('_size') or n.endswith('size'))
+        return isinstance(n, str) and n in sz
     if t[0] == 'call' and isinstance(t[1], str) and t[1] == 'core::sync::atomic::Atomic::load':
         return True         # event counters (2^64 events)
     if t[0] == 'field' and t[1][0] == 'call' and 'MetricSink>::stats' in str(t[1][1]):
@@ -112,6 +183,8 @@ def check(ctx, rep):
         W.rule_M9(m, rep)
         W.rule_M10(m, rep)
         inv_ok = len(rep.violations()) == before
+    sz = size_fields(ctx)
+    rep.floor('D5', 'formatter size-hint fields (every write is a sum of lengths): %s' % sorted(sz), len(sz), 2)
     sites = []
     bodies = library_bodies(ctx)
     rep.floor('INV', 'library bodies scanned', len(bodies), 250)
@@ -278,7 +351,7 @@ def discharge(ctx, m, inv_ok, cr, b, bi, kind, term, T):
         # (3) unsigned sum containing L, minus small const, under a guard L >= 1
         if c[0] == 'const' and c[2] in ('1',):
             lens = [y for y in walk(a) if y[0] == 'call' and isinstance(y[1], str) and y[1].endswith('::len')]
-            if unsigned_leafs_ok(a, size_leaf):
+            if unsigned_leafs_ok(a, size_leaf_for(ctx)):
                 for dt, labels, sbi in guards_of(T, bi) or []:
                     d = norm(dt)
                     if term_callee_is(d, '::is_empty') and ('bool', False) in labels:
@@ -307,7 +380,7 @@ def discharge(ctx, m, inv_ok, cr, b, bi, kind, term, T):
                 if inv_ok:
                     return True, 'D1: written + bytes just buffered <= capacity by invariant I'
                 return False, 'written + n may overflow: invariant I does not hold'
-        if unsigned_leafs_ok(inner, size_leaf):
+        if unsigned_leafs_ok(inner, size_leaf_for(ctx)):
             return True, 'D5: sum/product of in-memory lengths and constants'
         return False, 'arithmetic %s on caller-controlled values can overflow: panics with overflow checks, wraps without' % fmt(inner)[:120]
     if msg.startswith('BoundsCheck'):
